@@ -30,7 +30,10 @@ def gen_case(seed, idx, side, ncycles):
     return {"seed": seed, "idx": idx, "side": side, "ncycles": ncycles}
 
 
-def build_layout(rnd, late=None, more=0, more_rnd=None):
+JOIN_POOL = [("spi", "rx_data"), ("spi_rx", "data"), ("spi", "rx", "data"), ("spi_rx_data",), ("spi__rx", "data"), ("spi", "rx__data")]
+
+
+def build_layout(rnd, late=None, more=0, more_rnd=None, joinable=False):
     """`late`: if given (a list), a call-back `late[0]()` is invoked once at `late[1]` registers — the
     caller constructs the Multiplexer there, so the remaining registers are added to the (still
     open) map after the multiplexer exists and before it is elaborated"""
@@ -39,6 +42,10 @@ def build_layout(rnd, late=None, more=0, more_rnd=None):
     al = rnd.choice([0, 0, 0, 1, 2])
     mm = MemoryMap(addr_width=aw, data_width=dw, alignment=al)
     mm._verif_placed = placed = {}         # what add_resource() returned (the harness does not rely on listings for it)
+
+    def rname(i):
+        # distinct legal names that become the same string when their parts are joined with "_" or "__"
+        return JOIN_POOL[i] if joinable and i < len(JOIN_POOL) else f"r{i}"
     regs = []
     for i in range(rnd.randint(1, 6)):
         if late is not None and i == late[1]:
@@ -48,9 +55,9 @@ def build_layout(rnd, late=None, more=0, more_rnd=None):
         size = (w + dw - 1) // dw
         try:
             if rnd.random() < 0.5:
-                placed[id(r)] = mm.add_resource(r, name=f"r{i}", size=size, addr=rnd.randrange(0, 1 << aw, 1 << al))
+                placed[id(r)] = mm.add_resource(r, name=rname(i), size=size, addr=rnd.randrange(0, 1 << aw, 1 << al))
             else:
-                placed[id(r)] = mm.add_resource(r, name=f"r{i}", size=size, alignment=rnd.choice([None, None, 0, 1, 2]))
+                placed[id(r)] = mm.add_resource(r, name=rname(i), size=size, alignment=rnd.choice([None, None, 0, 1, 2]))
             regs.append(r)
         except ValueError:
             pass
@@ -103,7 +110,8 @@ def run_impl(case):
             return mx
         late = [mk_early, rnd2.randint(0, 2)]
     more = rnd2.choice([4, 6, 9, 12]) if rnd2.random() < 0.06 else 0
-    mm, regs, dw, aw, ov = build_layout(rnd, late, more, rnd2)
+    joinable = lib.rng_for(case["seed"], case["idx"], 434).random() < 0.2
+    mm, regs, dw, aw, ov = build_layout(rnd, late, more, rnd2, joinable=joinable)
     if not regs:
         return {"skip": True}
     # a look at the first entries of the map only (own random stream), BEFORE anything lists it in full
@@ -125,6 +133,12 @@ def run_impl(case):
     try:
         lib.peek_map(mm, (case["seed"], case["idx"], 51))
         mux = early.get("mux") or csr.Multiplexer(mm, shadow_overlaps=ov)
+        if "elaborated_at" in early and early["elaborated_at"] < len(mm._verif_placed) and lib.rng_for(case["seed"], case["idx"], 444).random() < .6:
+            # the first multiplexer (built and elaborated when the map was still incomplete) is dropped; a SECOND one over
+            # the same, now complete, map is what gets simulated: it owes nothing to the first
+            mux = csr.Multiplexer(mm, shadow_overlaps=ov)
+            early.pop("elaborated_at")
+            stats["second_multiplexer_over_the_same_map"] = 1
         lib.peek_map(mm, (case["seed"], case["idx"], 52), p=0.15)
         top = simutil.wrap(mux)
         from amaranth.sim import Simulator
